@@ -486,6 +486,7 @@ def translate_and_prove(ctx):
 
 
 def run(ctx):
+    warnings.simplefilter("ignore")
     ctx.rule = (
         "triangles drawn over the layout taxonomy (regular, semi-regular incl. a differing first lag step, "
         "semi-regular with gaps, irregular, erratic=overlapping/nested/same-start periods, one-day overlap vs "
@@ -508,7 +509,8 @@ def run(ctx):
         "up to key order, strictly on kinds and values",
     ]
     # 1. static theorems
-    ctx.audit_tree(["Model/Accessors.v", "Proofs/Accessors.v", "Proofs/AccessorsTax.v", "Props/C13.v"])
+    ctx.audit_tree(["Model/Accessors.v", "Proofs/Accessors.v", "Proofs/AccessorsTax.v", "Proofs/AccessorsCal.v",
+                    "Proofs/AccessorsGen.v", "Props/C13.v", "GenProps/C13_Gen.v", "GenProps/C13_Tie.v"])
     ctx.prove_static("Props/C13.v", timeout=600)
     # 2. decision tokens regenerated from source
     translate_and_prove(ctx)
